@@ -1,5 +1,7 @@
 import PyYetiVerif.Model.OrderStats
 import PyYetiVerif.Model.KFactor
+import PyYetiVerif.Model.OrderStatsApi
+import PyYetiVerif.Model.KFactorApi
 /-! Line protocol for C20.
 
 Order statistics (exact); rationals travel as `num/den` or `num`.  The polymorphic model is
@@ -22,6 +24,17 @@ predicted (degrees of freedom, non-centrality, …):
   `ns <n> <prob> <r> <tab…>`       → `newtonStep`
   `res <n> <prob> <r> <tab…>`      → `getrResidual`
 table entries: `P:x=v` (norm.ppf) `C:x=v` (norm.cdf) `T:c,df,nc=v` (nct.ppf) `X:pr,df=v` (chi2.ppf)
+
+Public entry points (Model/OrderStatsApi.lean, Model/KFactorApi.lean).  An argument is `-` (None) or
+`<dims>:<values>` with comma-separated dims (empty for a scalar / 0-d array) and values:
+  `api <iters> <which> p=<nd> c=<nd> n=<nd> r=<nd>`  (exact, at `Frac`; `_` in `which` stands for a blank,
+        `~` for the empty string) → `err <kind>` | `pyint v` | `npint v` | `npfloat q` | `intarr <dims>:<vals>` | `floatarr <dims>:<vals>`
+  `pq <iters> <c> <r> <n>`                       → `pQuery` at `Frac`: `q` or `value-error`
+  `ksa p=<nd> c=<nd> n=<nd> <tab…>`              → `ksingleApi` at `Float` (values are bit patterns): `<dims>:<vals>` or `shape-error`
+  `kda <tol> p=<nd> c=<nd> n=<nd> <tab…>`        → `kdoubleApi`: `<loops> <dims>:<vals>` or `shape-error`; here the
+        `C:` (norm.cdf) entries are matched to within 1e-12 (the arguments depend on `exp`, whose last bit
+        differs between libm and numpy), all other kernels exactly
+  `gra <tol> n=<nd> prob=<nd> <tab…>`            → `_getr` on the broadcast grid: `<loops> <dims>:<vals>`
 anything else → `bad-op` -/
 open PyYetiVerif
 
@@ -45,11 +58,19 @@ instance : Mul Frac := ⟨fun a b => if a.num = 0 || b.num = 0 then ⟨0, 1⟩ e
 instance : Add Frac := ⟨fun a b =>
   if a.num = 0 then b else if b.num = 0 then a
   else if a.den = b.den then ⟨a.num + b.num, a.den⟩
+  else if a.den % b.den = 0 then ⟨a.num + b.num * (a.den / b.den), a.den⟩
+  else if b.den % a.den = 0 then ⟨a.num * (b.den / a.den) + b.num, b.den⟩
   else ⟨a.num * b.den + b.num * a.den, a.den * b.den⟩⟩
 instance : Sub Frac := ⟨fun a b =>
   if b.num = 0 then a
   else if a.den = b.den then ⟨a.num - b.num, a.den⟩
+  else if a.den % b.den = 0 then ⟨a.num - b.num * (a.den / b.den), a.den⟩
+  else if b.den % a.den = 0 then ⟨a.num * (b.den / a.den) - b.num, b.den⟩
   else ⟨a.num * b.den - b.num * a.den, a.den * b.den⟩⟩
+instance : Div Frac := ⟨fun a b =>
+  if b.num = 0 then ⟨0, 1⟩
+  else if b.num > 0 then ⟨a.num * b.den, a.den * b.num.toNat⟩
+  else ⟨-(a.num * b.den), a.den * (-b.num).toNat⟩⟩
 instance : HPow Frac Nat Frac := ⟨fun a k => ⟨a.num ^ k, a.den ^ k⟩⟩
 instance : LE Frac := ⟨fun a b => a.num * b.den ≤ b.num * a.den⟩
 instance : DecidableLE Frac := fun a b => inferInstanceAs (Decidable (a.num * b.den ≤ b.num * a.den))
@@ -98,6 +119,52 @@ def opsOf (t : Tab) : KFactor.Ops Float where
   chi2Ppf := fun pr df =>
     ((t.X.find? fun e => same e.1 pr && same e.2.1 df).map (·.2.2)).getD nan
   spi := 1 / Float.sqrt (2 * 3.141592653589793)
+
+/-- as `opsOf`, but `norm.cdf` entries are matched to within 1e-12 (the nearest entry) -/
+def opsOfFuzzy (t : Tab) : KFactor.Ops Float :=
+  { opsOf t with
+    normCdf := fun x =>
+      match t.C.foldl (fun (best : Option (Float × Float)) e =>
+          let d := Float.abs (e.1 - x)
+          match best with
+          | none => some (d, e.2)
+          | some (bd, _) => if d < bd then some (d, e.2) else best) none with
+      | some (d, v) => if d ≤ 1e-12 * (1 + Float.abs x) then v else nan
+      | none => nan }
+
+instance : NatCast Float := ⟨Float.ofNat⟩
+instance : Zero Float := ⟨0.0⟩
+instance : One Float := ⟨1.0⟩
+
+open OrderStats in
+def parseNd {β : Type} (pv : String → Option β) (s : String) : Option (Option (Nd β)) :=
+  if s = "-" then some none
+  else match s.splitOn ":" with
+    | [d, v] => do
+        let dims ← ((d.splitOn ",").filter (· ≠ "")).mapM String.toNat?
+        let vals ← ((v.splitOn ",").filter (· ≠ "")).mapM pv
+        pure (some ⟨dims, vals⟩)
+    | _ => none
+
+def parseArg {β : Type} (name : String) (pv : String → Option β) (s : String) : Option (Option (OrderStats.Nd β)) :=
+  if s.startsWith (name ++ "=") then parseNd pv ((s.drop (name.length + 1)).toString) else none
+
+def fmtNd {β : Type} (f : β → String) (a : OrderStats.Nd β) : String :=
+  ",".intercalate (a.shape.map toString) ++ ":" ++ ",".intercalate (a.data.map f)
+
+def fmtOut (o : OrderStats.Out Frac) : String :=
+  match o with
+  | .err .badWhich => "err bad-which"
+  | .err .typeError => "err type-error"
+  | .err .shapeError => "err shape-error"
+  | .err .solverError => "err solver-error"
+  | .pyInt v => s!"pyint {v}"
+  | .npInt v => s!"npint {v}"
+  | .npFloat v => s!"npfloat {fmtRat v.toRat}"
+  | .intArr a => "intarr " ++ fmtNd toString a
+  | .floatArr a => "floatarr " ++ fmtNd (fun x => fmtRat x.toRat) a
+
+def parseFrac (s : String) : Option Frac := (parseRat s).map Frac.ofRat
 
 def cmpRat (a b : Rat) : Int := if a < b then -1 else if b < a then 1 else 0
 
@@ -152,6 +219,36 @@ def answer (line : String) : String :=
     | "res" :: n :: pr :: r :: tab => do
         let n ← parseF n; let pr ← parseF pr; let r ← parseF r; let t ← parseTab tab
         pure (fmtF (KFactor.getrResidual (opsOf t) n pr r))
+    | ["api", it, w, p, c, n, r] => do
+        let it ← it.toNat?
+        let p ← parseArg "p" parseFrac p; let c ← parseArg "c" parseFrac c
+        let n ← parseArg "n" String.toNat? n; let r ← parseArg "r" String.toNat? r
+        let w := if w = "~" then "" else w.replace "_" " "
+        pure (fmtOut (OrderStats.orderStats it w ⟨p, c, n, r⟩))
+    | ["pq", it, c, r, n] => do
+        let it ← it.toNat?; let c ← parseFrac c; let r ← r.toNat?; let n ← n.toNat?
+        pure (match OrderStats.pQuery it c r n with
+              | some x => fmtRat x.toRat | none => "value-error")
+    | "ksa" :: p :: c :: n :: tab => do
+        let p ← (← parseArg "p" parseF p); let c ← (← parseArg "c" parseF c); let n ← (← parseArg "n" parseF n)
+        let t ← parseTab tab
+        pure (match KFactor.ksingleApi (opsOf t) p c n with
+              | some a => fmtNd fmtF a | none => "shape-error")
+    | "kda" :: tol :: p :: c :: n :: tab => do
+        let tol ← parseF tol
+        let p ← (← parseArg "p" parseF p); let c ← (← parseArg "c" parseF c); let n ← (← parseArg "n" parseF n)
+        let t ← parseTab tab
+        pure (match KFactor.kdoubleApi (opsOfFuzzy t) tol p c n with
+              | some (a, loops) => s!"{loops} " ++ fmtNd fmtF a | none => "shape-error")
+    | "gra" :: tol :: n :: pr :: tab => do
+        let tol ← parseF tol
+        let n ← (← parseArg "n" parseF n); let pr ← (← parseArg "prob" parseF pr)
+        let t ← parseTab tab
+        match OrderStats.bmap3 (fun (n p : Float) (_ : Unit) => (n, p)) n pr (OrderStats.Nd.scalar ()) with
+        | none => pure "shape-error"
+        | some g =>
+          let rl := KFactor.getrAll (opsOfFuzzy t) tol (g.data.map (·.1)) (g.data.map (·.2))
+          pure (s!"{rl.2} " ++ fmtNd fmtF ⟨g.shape, rl.1⟩)
     | _ => none
   r.getD "bad-op"
 
